@@ -7,8 +7,11 @@ from checks.evalcheck import run_family
 
 def run(ctx):
     run_family(ctx, "c17", 6000)
+    # random deeper programs over every operator, builtin and value kind, recorded from the real evaluator and validated by Trace_Expr
+    tr = ctx.record("prog-random", "expr", ["-mode", "prog", "-n", 30000 if ctx.thorough else 2000, "-seed", ctx.seed * 100 + 17])
+    ctx.validate("prog-random-validate", "trace/Trace_Expr.tla", "trace/Trace_Expr.cfg", tr, "expr", shards=14 if ctx.thorough else 2)
     return ctx.finish(
         rule="every call / law formula of the family evaluated by the real evaluator; compared: the exact value (bytes, number, boolean) "
-             "or the error; non-trivial = pinned cases (in-range positions, one-byte ASCII pads, ASCII case/trim, pool regexes)",
+             "or the error; plus seeded random programs (depth <= 4, all operators / builtins / value kinds) validated by the trace specification; non-trivial = pinned cases (in-range positions, one-byte ASCII pads, ASCII case/trim, pool regexes)",
         assumptions=["negative lengths for left/right/pads and i > j for mid are 'error or value, no panic'; non-ASCII case mapping "
                      "and trimming, multi-byte pads, replace with an empty pattern are unpinned"])
